@@ -7,6 +7,10 @@ NOTE = ("Trusted: Coq 8.16.1 kernel and vm_compute (no native_compute); no axiom
         "context'); the go2v translator; the Go harness/oracle; Go toolchain and third-party libraries. See DESIGN.md section 7.")
 SOURCE_COMMITS = []  # hook commits in /repo (none so far: the harness uses the public API only)
 CLAIMED = {
+ "C13": dict(ref="5 C13", technique="Rocq/Coq proof by symbolic execution of the chain go2v extracts from logout.go + in-Coq correspondence",
+   text="logout_table (complete decision table of logoutHandleFunc for all requests, metadata and instants) is re-proved on the extracted chain on every run; C13_success_iff, _echo, _target follow, "
+        "C13_parameters_read pins the set of request parameters the handler reads. Generated logout requests (21 mutation classes x transports x 0-2 SLO entries) run against the real handler "
+        "and are compared with the model and an independent oracle."),
  "C01": dict(ref="5 C01", technique="Rocq/Coq proof by symbolic execution of the statement sequence go2v extracts from login.go + history induction + in-Coq correspondence over storage histories",
    text="callback_table (the complete decision table of callbackHandleFunc/loginResponse, for all requests and storage answers) is re-proved on the extracted sequence on every run; "
         "C01_success_only_if_done, _no_userinfo_before_done, _no_panic follow; C01_histories is an induction over arbitrary operation lists. Generated histories (1-5 sessions, faults, "
